@@ -282,7 +282,9 @@ func init() {
 					c.check(map[string][]*c12op{"S": ops})
 					for _, op := range ops {
 						// frame = payload + at most 64 bytes of headers; well beyond the limit it must fail
-						if len(op.payload) > limit && op.err == nil {
+						// (the limit is a limit on the frame that travels: with compression a larger payload may
+						// legitimately pass - the repository's own TestSendRemoteCompress expects exactly that)
+						if cname == "none" && len(op.payload) > limit && op.err == nil {
 							nw.ex.Fail("limit-not-enforced", "%s of %d bytes succeeded although the peer's max message size is %d", op.kind, len(op.payload), limit)
 						}
 						if len(op.payload)+64 < limit && op.err != nil {
